@@ -6,7 +6,28 @@ LEAN_PROPS = 'PlumpyModel.Props.C13'
 ASSUMPTIONS = pm_prop.ASSUMPTIONS
 TRUSTED = pm_prop.TRUSTED
 ALPHABET = ['pause', 'play', 'resume', 'resume-', 'resumeN']
-MONITORS = ['c13']
+MONITORS = ['c13', 'c06']      # c06: after resume(v), f(v) does run (the wait does not stay forever)
+
+
+import plumpy as _plumpy  # noqa: E402  (after harness.pm_prop, which loads harness.detloop first)
+
+
+class MutArgs(_plumpy.Process):
+    """Continue / Wait with mutable arguments that the continuations consume in place"""
+
+    def run(self):
+        return _plumpy.Continue(self.consume, ['a', 'b', 'c'], 7, report={'done': []})
+
+    def consume(self, items, n, report=None):
+        while items:
+            report['done'].append(items.pop(0))
+        return _plumpy.Wait(self.after)
+
+    def after(self, value):
+        got = list(value)
+        while value:
+            value.pop()
+        return {'got': got}
 
 
 def _restore_case(prog):
@@ -89,6 +110,56 @@ def _restore_case(prog):
     return n, fails
 
 
+def _mutargs_case():
+    """checkpoint between the return of `Continue(f, *a, **k)` / `Wait(f)` + resume(v) and the next step, with MUTABLE arguments
+    that the continuation consumes in place: the process restored from the checkpoint must see the arguments as they were
+    returned, whatever the original instance did to its own objects afterwards"""
+    import asyncio
+    import harness.detloop as detloop
+    import plumpy
+    from plumpy.base.state_machine import StateEventHook
+    fails = []
+    loop = detloop.DetLoop()
+    asyncio.set_event_loop(loop)
+    p = MutArgs(loop=loop)
+    snaps = []
+
+    def cb(sm, hook, state):
+        if not p.has_terminated():
+            snaps.append((p.state.value, plumpy.Bundle(p)))
+    p.add_state_event_callback(StateEventHook.ENTERED_STATE, cb)
+    loop.create_task(p.step_until_terminated())
+    for _ in range(6):
+        loop.drain(500)
+        if p.has_terminated():
+            break
+        if p.state.value == 'waiting':
+            p.resume(['x', 'y'])
+    ref = (p.state.value, p.result() if p.state.value == 'finished' else None)
+    loop.close()
+    n = 0
+    for label, bundle in snaps:
+        loop = detloop.DetLoop()
+        asyncio.set_event_loop(loop)
+        q = bundle.unbundle(plumpy.LoadSaveContext(loop=loop))
+        loop.create_task(q.step_until_terminated())
+        for _ in range(6):
+            loop.drain(500)
+            if q.has_terminated():
+                break
+            if q.state.value == 'waiting':
+                q.resume(['x', 'y'])
+        got = (q.state.value, q.result() if q.state.value == 'finished' else None)
+        n += 1
+        if got != ref:
+            fails.append(dict(signature='c13-restore-differs', clause='the same holds when the process was checkpointed and restored between '
+                              'the return and the next step (arguments as returned, not as mutated later by the original instance)',
+                              detail=dict(checkpoint_state=label, restored=repr(got)[:300], reference=repr(ref)[:300]),
+                              case=dict(mutargs=True)))
+        loop.close()
+    return n, fails
+
+
 def _restore_work(item):
     name, prog = item
     n, fails = _restore_case(prog)
@@ -110,6 +181,9 @@ def run(ctx):
     with mp.Pool(ctx.workers) as pool:
         res = pool.map(_restore_work, progs, chunksize=8)
     restored = sum(n for n, _ in res)
+    n_mut, f_mut = _mutargs_case()
+    restored += n_mut
+    out['failures'].extend(f_mut)
     for _n, fails in res:
         out['failures'].extend(fails)
     out['evaluations'] += restored
@@ -119,6 +193,9 @@ def run(ctx):
 
 
 def replay(ctx, failure):
+    if failure['case'].get('mutargs'):
+        n, fails = _mutargs_case()
+        return dict(checkpoints_restored=n, failures=fails)
     if failure['case'].get('restore_stream'):
         from harness import pm
         prog, _ = pm.fix_case(failure['case'])
